@@ -4,7 +4,10 @@ package harness
 
 import (
 	"strings"
+	"unicode/utf8"
 
+	"github.com/theory/sqljson/path"
+	"github.com/theory/sqljson/path/ast"
 	"github.com/theory/sqljson/path/exec"
 	"harness/nd"
 )
@@ -317,4 +320,78 @@ func C12_StartsWith() {
 		return
 	}
 	nd.Assert(got == b2o(strings.HasPrefix(as, bs)), tag)
+}
+
+var _ = reg("C12_Strings", C12_Strings)
+
+// anyRune: a symbolic Unicode scalar value (not NUL) as UTF-8 of 1..4 bytes:
+// the whole BMP as in oneRune, and the supplementary planes with a forked
+// lead byte and three symbolic continuation bytes.
+func anyRune() string {
+	if nd.Choice(2) == 0 {
+		return oneRune()
+	}
+	leads := []byte{0xF0, 0xF4}
+	if nd.Thorough() {
+		leads = []byte{0xF0, 0xF1, 0xF2, 0xF3, 0xF4}
+	}
+	s := string([]byte{leads[nd.Choice(len(leads))]}) + nd.StringN(3)
+	nd.Assume(utf8.ValidString(s))
+	nd.Assume(utf8.RuneCountInString(s) == 1)
+	return s
+}
+
+// byteOrder: three-way comparison of a and b as byte sequences, spelt out.
+func byteOrder(a, b string) int {
+	n := len(a)
+	if len(b) < n {
+		n = len(b)
+	}
+	for i := 0; i < n; i++ {
+		if a[i] != b[i] {
+			if a[i] < b[i] {
+				return -1
+			}
+			return 1
+		}
+	}
+	switch {
+	case len(a) < len(b):
+		return -1
+	case len(a) > len(b):
+		return 1
+	}
+	return 0
+}
+
+// C12_Strings: strings compare by byte order for every pair of code points
+// (1..4 byte UTF-8, symbolic) after a common prefix and before a suffix: the
+// six operators on variables, and a string literal in the path against a
+// document string.
+func C12_Strings() {
+	pre := []string{"", "a"}[nd.Choice(2)]
+	sufA := []string{"", "b"}[nd.Choice(2)]
+	a := pre + anyRune() + sufA
+	b := pre + anyRune()
+	opi := nd.Choice(6)
+	want := applyRef(opi, int64(byteOrder(a, b)))
+	var got int
+	if nd.Choice(2) == 0 {
+		got = evalPred("$a "+cmpOps[opi]+" $b", exec.Vars{"a": a, "b": b})
+	} else {
+		// the right operand as a literal built by the ast constructors
+		cmp := []ast.BinaryOperator{ast.BinaryEqual, ast.BinaryNotEqual, ast.BinaryLess, ast.BinaryLessOrEqual, ast.BinaryGreater, ast.BinaryGreaterOrEqual}[opi]
+		tree, err := ast.New(true, true, ast.NewBinary(cmp, ast.NewConst(ast.ConstRoot), ast.NewString(b)))
+		if err != nil {
+			return
+		}
+		r, qerr := path.New(tree).Query(bg, a)
+		got = oBad
+		if qerr == nil && len(r) == 1 {
+			if v, ok := r[0].(bool); ok {
+				got = b2o(v)
+			}
+		}
+	}
+	nd.Assert(agrees(got, false, want), "C12/strings/byte-order "+cmpOps[opi])
 }
